@@ -187,17 +187,29 @@ theorem runTrace_admitted (L : Limits) (ops : List Op) (d : Det) (e : Exec) (lvl
 
 /-! ## generic: `seqList` -/
 
-theorem seqList_ok {σ : Type} (ex : σ → Nat → Except Err (σ × Nat)) (Inv : σ → Prop)
+theorem seqList_ok {σ : Type} (ex : σ → Nat → Except Err (σ × Nat)) (Q : Nat → Prop) (Inv : σ → Prop)
     (meas : σ → Nat)
-    (hex : ∀ d c, Inv d → ∃ d' w, ex d c = .ok (d', w) ∧ Inv d' ∧ meas d + w ≤ meas d')
-    (cs : List Nat) (d : σ) (hd : Inv d) :
+    (hex : ∀ d c, Q c → Inv d → ∃ d' w, ex d c = .ok (d', w) ∧ Inv d' ∧ meas d + w ≤ meas d')
+    (cs : List Nat) (hcs : ∀ c ∈ cs, Q c) (d : σ) (hd : Inv d) :
     ∃ d' w, seqList ex d cs = .ok (d', w) ∧ Inv d' ∧ meas d + w ≤ meas d' := by
   induction cs generalizing d with
   | nil => exact ⟨d, 0, rfl, hd, Nat.le_refl _⟩
   | cons c cs ih =>
-    obtain ⟨d1, w1, h1, i1, m1⟩ := hex d c hd
-    obtain ⟨d2, w2, h2, i2, m2⟩ := ih d1 i1
+    obtain ⟨d1, w1, h1, i1, m1⟩ := hex d c (hcs c (by simp)) hd
+    obtain ⟨d2, w2, h2, i2, m2⟩ := ih (fun c hc => hcs c (by simp [hc])) d1 i1
     refine ⟨d2, w1 + w2, ?_, i2, by omega⟩
+    simp [seqList, h1, h2]
+
+theorem seqList_ok' {σ : Type} (ex : σ → Nat → Except Err (σ × Nat)) (Q : Nat → Prop) (Inv : σ → Prop)
+    (hex : ∀ d c, Q c → Inv d → ∃ d' w, ex d c = .ok (d', w) ∧ Inv d')
+    (cs : List Nat) (hcs : ∀ c ∈ cs, Q c) (d : σ) (hd : Inv d) :
+    ∃ d' w, seqList ex d cs = .ok (d', w) ∧ Inv d' := by
+  induction cs generalizing d with
+  | nil => exact ⟨d, 0, rfl, hd⟩
+  | cons c cs ih =>
+    obtain ⟨d1, w1, h1, i1⟩ := hex d c (hcs c (by simp)) hd
+    obtain ⟨d2, w2, h2, i2⟩ := ih (fun c hc => hcs c (by simp [hc])) d1 i1
+    refine ⟨d2, w1 + w2, ?_, i2⟩
     simp [seqList, h1, h2]
 
 /-! ## the decorator never runs out of Python stack -/
@@ -231,12 +243,13 @@ theorem exec_ok (L : Limits) (P : Prog) (hnb : ∀ f, P.builtin f = false) :
       have adm := push_admitted L d (P.mk' f) (hnb f) hlim
       rw [heq]; simp only
       -- the children run one level deeper with one unit of fuel less
-      have hlist := seqList_ok (exec L P fuel) (SameFrame (push L d (P.mk' f)).1) Det.execCount
+      have hlist := seqList_ok (exec L P fuel) (fun _ => True) (SameFrame (push L d (P.mk' f)).1)
+        Det.execCount
         (by
-          intro d1 c hd1
+          intro d1 c _ hd1
           obtain ⟨d', w, h, sf, hw⟩ := ih d1 c (by rw [hd1.1, push_level]; omega)
           exact ⟨d', w, h, ⟨by rw [sf.1, hd1.1], by rw [sf.2, hd1.2]⟩, hw⟩)
-        (P.body f) (push L d (P.mk' f)).1 ⟨rfl, rfl⟩
+        (P.body f) (fun _ _ => trivial) (push L d (P.mk' f)).1 ⟨rfl, rfl⟩
       obtain ⟨d3, w, h3, sf3, hw3⟩ := hlist
       rw [h3]; simp only
       have hp3 : d3.parents = (P.mk' f).fn :: d.parents := by rw [sf3.2, push_parents]
@@ -313,5 +326,268 @@ theorem exec_total (L : Limits) (P : Prog) :
       injection h with h; injection h with h1 h2
       subst h1
       rw [e2]; exact hpush
+
+/-! ## memoised evaluation: potential functions -/
+
+/-- weighted number of keys below `n` that have no memo entry yet -/
+def pot {Val : Type} (wt : Nat → Nat) (m : Memo Val) : Nat → Nat
+  | 0 => 0
+  | n + 1 => pot wt m n + (if (m n).isNone then wt n else 0)
+
+def Grows {Val : Type} (m m' : Memo Val) : Prop := ∀ k, (m k).isSome → (m' k).isSome
+
+theorem Grows.refl {Val : Type} (m : Memo Val) : Grows m m := fun _ h => h
+theorem Grows.trans {Val : Type} {a b c : Memo Val} (h1 : Grows a b) (h2 : Grows b c) : Grows a c :=
+  fun k h => h2 k (h1 k h)
+
+theorem grows_set {Val : Type} (m : Memo Val) (v : Nat) (x : Val) : Grows m (m.set v x) := by
+  intro k h
+  unfold Memo.set
+  split <;> simp_all
+
+theorem pot_mono {Val : Type} (wt : Nat → Nat) (m m' : Memo Val) (h : Grows m m') (n : Nat) :
+    pot wt m' n ≤ pot wt m n := by
+  induction n with
+  | zero => simp [pot]
+  | succ n ih =>
+    simp only [pot]
+    have := h n
+    cases h1 : m n <;> cases h2 : m' n <;> simp_all <;> omega
+
+theorem pot_set_none {Val : Type} (wt : Nat → Nat) (m : Memo Val) (v : Nat) (x : Val) (n : Nat)
+    (hv : v < n) (hm : m v = none) : pot wt (m.set v x) n + wt v = pot wt m n := by
+  induction n with
+  | zero => omega
+  | succ n ih =>
+    simp only [pot]
+    by_cases hvn : v = n
+    · subst hvn
+      have hle : pot wt (m.set v x) v = pot wt m v := by
+        clear ih hv
+        have : ∀ k, k ≤ v → pot wt (m.set v x) k = pot wt m k := by
+          intro k
+          induction k with
+          | zero => intro _; rfl
+          | succ k ihk =>
+            intro hk
+            simp only [pot]
+            rw [ihk (by omega)]
+            have : (m.set v x) k = m k := by unfold Memo.set; rw [if_neg (by omega)]
+            rw [this]
+        exact this v (Nat.le_refl _)
+      rw [hle]
+      simp [Memo.set, hm]
+    · have h1 := ih (by omega)
+      have : (m.set v x) n = m n := by unfold Memo.set; rw [if_neg (fun h => hvn h.symm)]
+      rw [this]; omega
+
+/-- the specification of one memoised call, relative to a universe of `n` keys -/
+structure EvalSpec {Val : Type} (n : Nat) (E : Nat → Nat) (m : Memo Val) (c : Nat)
+    (m' : Memo Val) (w : Work) : Prop where
+  grows : Grows m m'
+  filled : (m' c).isSome
+  bodies : w.bodies + pot (fun _ => 1) m' n ≤ pot (fun _ => 1) m n
+  calls : w.calls + pot E m' n ≤ 1 + pot E m n
+
+theorem evalArgs_ok {Val : Type} (n : Nat) (E : Nat → Nat) (bound : Nat)
+    (ev : Memo Val → Nat → Except Err (Memo Val × Val × Work))
+    (hev : ∀ m c, c < n → pot (fun _ => 1) m n ≤ bound →
+      ∃ m' r w, ev m c = .ok (m', r, w) ∧ EvalSpec n E m c m' w)
+    (cs : List Nat) (hcs : ∀ c ∈ cs, c < n) (m : Memo Val) (hm : pot (fun _ => 1) m n ≤ bound) :
+    ∃ m' rs w, evalArgs ev m cs = .ok (m', rs, w) ∧ Grows m m' ∧
+      w.bodies + pot (fun _ => 1) m' n ≤ pot (fun _ => 1) m n ∧
+      w.calls + pot E m' n ≤ cs.length + pot E m n := by
+  induction cs generalizing m with
+  | nil => exact ⟨m, [], ⟨0, 0⟩, rfl, Grows.refl m, by simp, by simp⟩
+  | cons c cs ih =>
+    obtain ⟨m1, r, w1, h1, s1⟩ := hev m c (hcs c (by simp)) hm
+    have hb1 : pot (fun _ => 1) m1 n ≤ bound := by have := s1.bodies; omega
+    obtain ⟨m2, rs, w2, h2, g2, b2, c2⟩ := ih (fun c hc => hcs c (by simp [hc])) m1 hb1
+    refine ⟨m2, r :: rs, ⟨w1.bodies + w2.bodies, w1.calls + w2.calls⟩, ?_, s1.grows.trans g2, ?_, ?_⟩
+    · simp [evalArgs, h1, h2]
+    · have := s1.bodies; simp only; omega
+    · have := s1.calls; simp only [List.length_cons]; omega
+
+/-- a graph on the keys `0..n-1` -/
+def Closed {Val : Type} (G : Graph Val) (n : Nat) : Prop := ∀ v, v < n → ∀ c ∈ G.deps v, c < n
+
+theorem eval_ok {Val : Type} (G : Graph Val) (n : Nat) (dflt : Val) (hd : G.default = some dflt)
+    (hc : Closed G n) :
+    ∀ (fuel : Nat) (m : Memo Val) (v : Nat), v < n → pot (fun _ => 1) m n ≤ fuel →
+      ∃ m' r w, eval G fuel m v = .ok (m', r, w) ∧
+        EvalSpec n (fun k => (G.deps k).length) m v m' w := by
+  intro fuel
+  induction fuel with
+  | zero =>
+    intro m v hv hp
+    unfold eval
+    cases hm : m v with
+    | some r =>
+      exact ⟨m, r, ⟨0, 1⟩, rfl, ⟨Grows.refl m, by simp [hm], by simp, by simp⟩⟩
+    | none =>
+      have := pot_set_none (fun _ => 1) m v dflt n hv hm
+      omega
+  | succ fuel ih =>
+    intro m v hv hp
+    unfold eval
+    cases hm : m v with
+    | some r =>
+      exact ⟨m, r, ⟨0, 1⟩, rfl, ⟨Grows.refl m, by simp [hm], by simp, by simp⟩⟩
+    | none =>
+      simp only [hd]
+      have h1 := pot_set_none (fun _ => 1) m v dflt n hv hm
+      have hE := pot_set_none (fun k => (G.deps k).length) m v dflt n hv hm
+      obtain ⟨m2, vals, w, h2, g2, b2, c2⟩ :=
+        evalArgs_ok n (fun k => (G.deps k).length) fuel (eval G fuel)
+          (fun m c hc' hb => ih m c hc' hb) (G.deps v) (hc v hv) (m.set v dflt) (by omega)
+      rw [h2]
+      refine ⟨_, _, _, rfl, ?_, ?_, ?_, ?_⟩
+      · exact ((grows_set m v dflt).trans g2).trans (grows_set m2 v _)
+      · simp [Memo.set]
+      · have := pot_mono (fun _ => 1) m2 (m2.set v (G.combine v vals)) (grows_set _ _ _) n
+        simp only; omega
+      · have := pot_mono (fun k => (G.deps k).length) m2 (m2.set v (G.combine v vals))
+          (grows_set _ _ _) n
+        simp only; omega
+
+theorem pot_le (wt : Nat → Nat) {Val : Type} (m : Memo Val) (n : Nat) :
+    pot wt m n ≤ pot wt (Memo.empty : Memo Val) n := by
+  apply pot_mono
+  intro k h
+  simp [Memo.empty] at h
+
+theorem pot_one_empty {Val : Type} (n : Nat) : pot (fun _ => 1) (Memo.empty : Memo Val) n = n := by
+  induction n with
+  | zero => rfl
+  | succ n ih => simp [pot, ih, Memo.empty]
+
+/-- number of edges leaving the keys `0..n-1` -/
+def edges (deps : Nat → List Nat) : Nat → Nat
+  | 0 => 0
+  | n + 1 => edges deps n + (deps n).length
+
+theorem pot_edges_empty {Val : Type} (deps : Nat → List Nat) (n : Nat) :
+    pot (fun k => (deps k).length) (Memo.empty : Memo Val) n = edges deps n := by
+  induction n with
+  | zero => rfl
+  | succ n ih => simp [pot, edges, ih, Memo.empty]
+
+/-! ## the on-stack guard alone: depth is bounded by the number of nodes -/
+
+/-- the stack seen as a memo: keys on the stack are "filled" -/
+def stackMemo (stack : List Nat) : Memo Unit := fun k => if k ∈ stack then some () else none
+
+/-- number of nodes below `n` that are not on the stack -/
+def free (n : Nat) (stack : List Nat) : Nat := pot (fun _ => 1) (stackMemo stack) n
+
+theorem free_cons (n v : Nat) (stack : List Nat) (hv : v < n) (hs : v ∉ stack) :
+    free n (v :: stack) + 1 = free n stack := by
+  have h := pot_set_none (fun _ => 1) (stackMemo stack) v () n hv (by simp [stackMemo, hs])
+  have : (stackMemo stack).set v () = stackMemo (v :: stack) := by
+    funext k
+    simp only [Memo.set, stackMemo, List.mem_cons]
+    by_cases h1 : k = v <;> by_cases h2 : k ∈ stack <;> simp [h1, h2]
+  rw [this] at h
+  exact h
+
+theorem free_nil (n : Nat) : free n [] = n := by
+  have : stackMemo [] = (Memo.empty : Memo Unit) := by funext k; simp [stackMemo, Memo.empty]
+  unfold free; rw [this]; exact pot_one_empty n
+
+theorem evalGuard_ok (deps : Nat → List Nat) (n : Nat) (hc : ∀ v, v < n → ∀ c ∈ deps v, c < n) :
+    ∀ (fuel : Nat) (stack : List Nat) (v : Nat), v < n → free n stack ≤ fuel →
+      ∃ w, evalGuard deps fuel stack v = .ok (stack, w) := by
+  intro fuel
+  induction fuel with
+  | zero =>
+    intro stack v hv hf
+    unfold evalGuard
+    by_cases hs : v ∈ stack
+    · exact ⟨0, by simp [hs]⟩
+    · have := free_cons n v stack hv hs; omega
+  | succ fuel ih =>
+    intro stack v hv hf
+    unfold evalGuard
+    by_cases hs : v ∈ stack
+    · exact ⟨0, by simp [hs]⟩
+    · simp only [hs, if_false]
+      have hfc := free_cons n v stack hv hs
+      have hl := seqList_ok' (σ := List Nat)
+        (fun st c => guardChild st (evalGuard deps fuel (v :: stack) c))
+        (fun c => c < n) (fun _ => True)
+        (by
+          intro st c hcn _
+          obtain ⟨w, hw⟩ := ih (v :: stack) c hcn (by omega)
+          exact ⟨st, w, by simp [hw, guardChild], trivial⟩)
+        (deps v) (hc v hv) stack trivial
+      obtain ⟨d', w, h, _⟩ := hl
+      rw [h]
+      exact ⟨w + 1, rfl⟩
+
+/-! ## `_limit_value_infers` -/
+
+def cnt (c : Counts) (n : Nat) : Nat := (c n).getD 0
+
+/-- the cap that applies to one call -/
+def maxOf (cap factor : Nat) (generous : Bool) : Nat := if generous then cap * factor else cap
+
+theorem limitStep_fst (cap factor : Nat) (c : Counts) (k : Nat) (g : Bool) :
+    (limitStep cap factor c k g).1 = fun x => if x = k then some (cnt c k + 1) else c x := by
+  unfold limitStep cnt
+  cases hck : c k with
+  | none => simp
+  | some j =>
+    simp only
+    by_cases h : j + 1 > (if g = true then cap * factor else cap)
+    · simp [h]
+    · simp [h]
+
+theorem limitStep_snd (cap factor : Nat) (c : Counts) (k : Nat) (g : Bool) :
+    (limitStep cap factor c k g).2 = true ↔ (c k = none ∨ cnt c k + 1 ≤ maxOf cap factor g) := by
+  unfold limitStep cnt maxOf
+  cases hck : c k with
+  | none => simp
+  | some j =>
+    simp only
+    by_cases h : j + 1 > (if g = true then cap * factor else cap)
+    · simp [h]
+    · simp [h]; omega
+
+theorem limitStep_spec (cap factor : Nat) (c : Counts) (k : Nat) (g : Bool) (n M : Nat)
+    (hM : 1 ≤ M) (hmax : k = n → maxOf cap factor g ≤ M) :
+    (if k = n ∧ (limitStep cap factor c k g).2 = true then 1 else 0) + min (cnt c n) M
+      ≤ min (cnt (limitStep cap factor c k g).1 n) M := by
+  rw [limitStep_fst]
+  have hs := limitStep_snd cap factor c k g
+  by_cases hkn : k = n
+  · subst hkn
+    have hm := hmax rfl
+    have hc : cnt (fun x => if x = k then some (cnt c k + 1) else c x) k = cnt c k + 1 := by
+      simp [cnt]
+    rw [hc]
+    split
+    · rename_i h
+      rcases hs.mp h.2 with h0 | h1
+      · have : cnt c k = 0 := by simp [cnt, h0]
+        omega
+      · omega
+    · omega
+  · have : ¬ n = k := fun h => hkn h.symm
+    have hc : cnt (fun x => if x = k then some (cnt c k + 1) else c x) n = cnt c n := by
+      simp [cnt, this]
+    rw [hc]
+    simp [hkn]
+
+theorem limitRun_cap (cap factor : Nat) (n M : Nat) (hM : 1 ≤ M) (calls : List (Nat × Bool))
+    (hmax : ∀ p ∈ calls, p.1 = n → maxOf cap factor p.2 ≤ M) (c : Counts) :
+    enteredFor n calls (limitRun cap factor c calls).2 + min (cnt c n) M ≤ M := by
+  induction calls generalizing c with
+  | nil => simp [enteredFor]; omega
+  | cons p rest ih =>
+    obtain ⟨k, g⟩ := p
+    simp only [limitRun, enteredFor]
+    have h1 := limitStep_spec cap factor c k g n M hM (hmax (k, g) (by simp))
+    have h2 := ih (fun p hp => hmax p (by simp [hp])) (limitStep cap factor c k g).1
+    omega
 
 end JediModel.Recursion
